@@ -267,6 +267,8 @@ where
   repeatStr (s : String) (n : N) : Res N :=
     let k := NumOps.truncI64 n
     if k < 0 then some [.val .null .off]
+    -- an empty string repeated any number of times is empty (never build the list of copies)
+    else if s.isEmpty then some [.val (.str "") .off]
     else if k.toNat * s.utf8ByteSize > 2000000 then none
     else some [.val (.str (String.join (List.replicate k.toNat s))) .off]
   splitStr (s sep : String) : List String :=
@@ -391,6 +393,22 @@ def b64enc : List UInt8 → List Char
     b64chars.getD (n >>> 18) 'A' :: b64chars.getD ((n >>> 12) % 64) 'A' ::
       b64chars.getD ((n >>> 6) % 64) 'A' :: b64chars.getD (n % 64) 'A' :: b64enc rest
 
+def b32chars : List Char := "ABCDEFGHIJKLMNOPQRSTUVWXYZ234567".toList
+
+def b32go : Nat → List Nat → List Char
+  | 0, _ => []
+  | fuel + 1, bits =>
+    if bits.isEmpty then [] else
+    let g := bits.take 5
+    let g' := g ++ List.replicate (5 - g.length) 0
+    b32chars.getD (g'.foldl (fun a b => a * 2 + b) 0) 'A' :: b32go fuel (bits.drop 5)
+
+/-- RFC 4648 base32 with padding (jq's `@base32`; succinctly has no such format) -/
+def b32enc (bs : List UInt8) : List Char :=
+  let bits := bs.flatMap fun b => (List.range 8).map fun i => (b.toNat >>> (7 - i)) % 2
+  let cs := b32go (bits.length + 1) bits
+  cs ++ List.replicate ((8 - cs.length % 8) % 8) '='
+
 def b64val (c : Char) : Option Nat :=
   if 'A' ≤ c && c ≤ 'Z' then some (c.toNat - 65)
   else if 'a' ≤ c && c ≤ 'z' then some (c.toNat - 97 + 26)
@@ -470,6 +488,11 @@ def applyFormat (d : Dialect) (name : String) (v : JV N) : Res N :=
     (match v with
      | .str s => ok (String.ofList (b64enc (strBytes s)))
      | v => if d.succinctly then none else (toText v).bind fun s => ok (String.ofList (b64enc (strBytes s))))
+  | "@base32" =>
+    if d.succinctly then none else
+    (match v with
+     | .str s => ok (String.ofList (b32enc (strBytes s)))
+     | v => (toText v).bind fun s => ok (String.ofList (b32enc (strBytes s))))
   | "@base64d" =>
     (match v with
      | .str s =>
@@ -610,8 +633,9 @@ def plainAll (fuel : Nat) (v : JV N) : JV N :=
     | .obj fs => .obj (fs.map fun (k, x) => (k, plainAll fuel x))
     | v => v
 
-/-- succinctly re-reads the `reduce`/`foreach` state from its printed form at every step, so a
-double that prints as an integer continues as an exact integer (recorded C24 finding). -/
+/-- succinctly re-reads the `reduce`/`foreach` state from its printed form whenever it is the input
+of an update / extract expression (not when it is emitted), so a double that prints as an integer
+continues as an exact integer (recorded C24 finding). -/
 def reparseAll (fuel : Nat) (v : JV N) : JV N :=
   match fuel with
   | 0 => v
@@ -619,13 +643,37 @@ def reparseAll (fuel : Nat) (v : JV N) : JV N :=
     match v with
     | .num n =>
       -- a number that still carries a spelling of its own keeps it
-      if (NumOps.canon n).contains '~' then v else
+      if (NumOps.canon n).contains '~' || NumOps.isInf n then v else
       (match NumOps.print n with
        | some s => (match (NumOps.ofLit s : Option N) with | some m => .num m | none => v)
        | none => v)
     | .arr xs => .arr (xs.map (reparseAll fuel))
     | .obj fs => .obj (fs.map fun (k, x) => (k, reparseAll fuel x))
     | v => v
+
+/-- does the value contain a number whose succinctly representation the model does not determine -/
+def hasUnstable (fuel : Nat) (v : JV N) : Bool :=
+  match fuel with
+  | 0 => false
+  | fuel + 1 =>
+    match v with
+    | .num n => NumOps.unstable n
+    | .arr xs => xs.any (hasUnstable fuel)
+    | .obj fs => fs.any fun (_, x) => hasUnstable fuel x
+    | _ => false
+
+/-- succinctly dialect: a freshly computed result with an unstable number (`NumOps.unstable`) ends
+the model's verdict for the run -/
+def stableRes (d : Dialect) (r : Res N) : Res N :=
+  match r with
+  | none => none
+  | some outs =>
+    if d.succinctly && outs.any (fun o =>
+        match o with
+        | .val x _ => hasUnstable 200 x
+        | .err x => hasUnstable 200 x
+        | _ => false) then none
+    else some outs
 
 /-- jq's parser diagnostic for a string that is a single garbage token (the only shape succinctly
 and the recorded probes pin down); anything with separators or brackets: no verdict -/
@@ -783,7 +831,8 @@ def prim (d : Dialect) (name : String) (args : List (JV N)) (v : JV N) (p : PInf
   | "isnan", [] =>
     (match v with
      | .num n => ok (.bool (NumOps.isNan n))
-     | v => subjErr v "number required")
+     -- succinctly answers `false` for a non-number (jq 1.7.1: "number required")
+     | v => if d.succinctly then ok (.bool false) else subjErr v "number required")
   | "explode", [] =>
     (match v with
      | .str s => ok (.arr (s.toList.map fun c => JV.ofNat c.toNat))
@@ -1092,6 +1141,20 @@ def userFold : Pattern → Bool
   | .var n => !(["p", "x", "i", "item", "q"].contains n)
   | _ => true
 
+/-- the expression shapes succinctly answers directly on the in-memory `reduce`/`foreach` state
+(`eval_owned_fast_path`: bare `.`, `.name`, `.[n]`, `tostring`); every other update / extract
+expression sees the state re-read from its printed form -/
+def foldFastPath : Expr → Bool
+  | .identity => true
+  | .index .identity (.lit (.str _)) false => true
+  | .index .identity (.lit (.num _)) false => true
+  | .call "tostring" [] => true
+  | _ => false
+
+/-- the state as the update / extract expression `e` of a user-written fold sees it -/
+def foldView (d : Dialect) (pat : Pattern) (e : Expr) (v : JV N) : JV N :=
+  if d.succinctly && userFold pat && !foldFastPath e then reparseAll 200 v else v
+
 def evalStep (d : Dialect) (rec : Rec N) (e : Expr) (env : Env N) (v : JV N) (p : PInfo N) :
     Option (List (Out N)) :=
   match e with
@@ -1153,6 +1216,14 @@ def evalStep (d : Dialect) (rec : Rec N) (e : Expr) (env : Env N) (v : JV N) (p 
        | some h => do
          let hr ← rec h env ev p.drop
          pure (r.dropLast ++ hr))
+    -- succinctly: `try` also catches a `break` (as an error with payload `null`); jq lets it pass
+    | some (.brk _) =>
+      if !d.succinctly then pure r else
+      (match handler with
+       | none => pure r.dropLast
+       | some h => do
+         let hr ← rec h env .null p.drop
+         pure (r.dropLast ++ hr))
     | _ => pure r
   | .arr none => okV p (.arr [])
   | .arr (some a) => do
@@ -1171,7 +1242,7 @@ def evalStep (d : Dialect) (rec : Rec N) (e : Expr) (env : Env N) (v : JV N) (p 
     let r ← rec a env v .off
     bindOut r (fun x _ =>
       match x with
-      | .num n => okV p (.num (NumOps.neg n))
+      | .num n => stableRes d (okV p (.num (NumOps.neg n)))
       | x => subjErr x "cannot be negated")
   | .pipe a b => do
     let r ← rec a env v p
@@ -1187,7 +1258,7 @@ def evalStep (d : Dialect) (rec : Rec N) (e : Expr) (env : Env N) (v : JV N) (p 
       let ls ← rec a env v .off
       bindOut ls (fun lv _ =>
         if isCmpOp op then okV p (.bool (cmpOp op lv rv))
-        else (arithOp op lv rv).map (retag p)))
+        else stableRes d ((arithOp op lv rv).map (retag p))))
   | .and_ a b => do
     let ls ← rec a env v .off
     bindOut ls (fun lv _ =>
@@ -1222,12 +1293,12 @@ def evalStep (d : Dialect) (rec : Rec N) (e : Expr) (env : Env N) (v : JV N) (p 
         match bindPat pat x xp env with
         | .error m => if m.startsWith "UNMODELLED" then none else some (st, [.err (.str m)])
         | .ok env' => do
-          let r ← rec upd env' st.1 st.2
+          let r ← rec upd env' (foldView d pat upd st.1) st.2
           match terminatorOf r with
           | some t => pure (st, [t])
           | none =>
             match r.getLast? with
-            | some (.val nv np) => pure ((if d.succinctly && userFold pat then reparseAll 200 nv else nv, np), [])
+            | some (.val nv np) => pure ((nv, np), [])
             | _ => pure ((JV.null, st.2.drop), []))
       if terminated outs then pure outs else pure [.val st.1 st.2])
   | .foreach src pat init upd ext =>
@@ -1239,13 +1310,12 @@ def evalStep (d : Dialect) (rec : Rec N) (e : Expr) (env : Env N) (v : JV N) (p 
         match bindPat pat x xp env with
         | .error m => if m.startsWith "UNMODELLED" then none else some (st, [.err (.str m)])
         | .ok env' => do
-          let r ← rec upd env' st.1 st.2
-          foldOut r (JV.null, st.2.drop) (fun _ u0 up =>
-            let u := if d.succinctly && userFold pat then reparseAll 200 u0 else u0
+          let r ← rec upd env' (foldView d pat upd st.1) st.2
+          foldOut r (JV.null, st.2.drop) (fun _ u up =>
             match ext with
             | none => some ((u, up), [.val u up])
             | some x => do
-              let er ← rec x env' u up
+              let er ← rec x env' (foldView d pat x u) up
               pure ((u, up), er)))
       pure outs)
   | .label name body => do
@@ -1287,6 +1357,12 @@ def evalStep (d : Dialect) (rec : Rec N) (e : Expr) (env : Env N) (v : JV N) (p 
       bindParams params args self
     | none =>
       match name, args with
+      -- prelude-internal: `f`, but a run of `f` that halts has no verdict
+      | "_nohalt", [f] => do
+        let r ← rec f env v p
+        match terminatorOf r with
+        | some (.halt _ _) => none
+        | _ => pure r
       | "path", [f] => do
         let r ← rec f env v (.at [])
         bindOut r (fun w q =>
@@ -1316,8 +1392,8 @@ def evalStep (d : Dialect) (rec : Rec N) (e : Expr) (env : Env N) (v : JV N) (p 
           let runs ← args.mapM (fun a => rec a env v .off)
           -- succinctly evaluates an argument generator only once (first value); not modelled
           if d.succinctly && runs.any (fun r => r.length != 1 || terminated r) && name != "error" then
-            (if runs.all (fun r => r.length == 1) then cartArgs runs.reverse [] (fun vals => prim d name vals v p) else none)
-          else cartArgs runs.reverse [] (fun vals => prim d name vals v p)
+            (if runs.all (fun r => r.length == 1) then cartArgs runs.reverse [] (fun vals => stableRes d (prim d name vals v p)) else none)
+          else cartArgs runs.reverse [] (fun vals => stableRes d (prim d name vals v p))
 
 /-- the evaluator: `fuel` bounds the nesting depth of evaluation steps -/
 def eval (d : Dialect) : Nat → Rec N
